@@ -690,3 +690,58 @@ Proof.
     + intros x Hx. apply (act_ids_in _ _ ND). apply A. exact Hx.
   - intros Hj. apply A. exact Hj.
 Qed.
+
+(** ** histories without comparisons: the quiet invariant holds throughout *)
+Fixpoint no_compare (ops : list op) : Prop :=
+  match ops with
+  | [] => True
+  | OCompare _ _ _ :: _ => False
+  | _ :: r => no_compare r
+  end.
+
+Lemma quiet_init : forall r h base, quiet (c_init r h base).
+Proof.
+  intros r h base. unfold quiet, wf, cores, c_init, init. cbn [blocks root tip napp map core b_id b_par b_h b_act].
+  split; [|split].
+  - split; [cbn; constructor; [intros []|constructor]|]. split; [exists h; cbn; rewrite N.eqb_refl; reflexivity|].
+    split; [|reflexivity]. intros e [<-|[]] Hne. exfalso. apply Hne. reflexivity.
+  - exists (r, r, h, true). cbn. rewrite N.eqb_refl. split; reflexivity.
+  - unfold hgt. cbn. rewrite N.eqb_refl. cbn. lia.
+Qed.
+
+Lemma quiet_run : forall ops s s', no_compare ops -> quiet s -> run s ops = Ok s' -> quiet s'.
+Proof.
+  induction ops as [|o r IH]; intros s s' NC Q H; cbn in H.
+  - inversion H; subst. exact Q.
+  - destruct (step_op s o) as [s1|] eqn:E; cbn in H; [|discriminate].
+    destruct o as [i par dup gs|to|c sc cr]; cbn in E, NC; [| |destruct NC].
+    + eapply IH; [exact NC| |exact H]. eapply quiet_connect; eassumption.
+    + destruct (c_setState s to) as [[s2 ok]|] eqn:E2; cbn in E; [|discriminate]. inversion E; subst.
+      eapply IH; [exact NC| |exact H]. eapply quiet_setState; eassumption.
+Qed.
+
+Lemma anc_list_static : forall l l' n i, same_static l l' -> anc_list l' n i = anc_list l n i.
+Proof.
+  intros l l' n. induction n as [|n IH]; intros i S; [reflexivity|]. cbn. f_equal.
+  assert (parent l' i = parent l i).
+  { specialize (S i). unfold sfind in S. unfold parent. destruct (cfind l' i), (cfind l i); cbn in S; try discriminate; [inversion S; reflexivity|reflexivity]. }
+  rewrite H. apply IH. exact S.
+Qed.
+
+(** C02, full statement for setState from a quiet state (any tree, any payloads, any failing position):
+    success = the target is the tip and EXACTLY root..target is applied; failure = tip, counter and the applied set are
+    exactly what they were. *)
+Theorem setState_applied_exactly : forall s to s' ok,
+    quiet s -> c_setState s to = Ok (s', ok) ->
+    quiet s' /\
+    (forall j, is_act (cores s') j <-> In j (chain s')) /\
+    (ok = true -> tip _ _ s' = to) /\
+    (ok = false -> tip _ _ s' = tip _ _ s /\ napp _ _ s' = napp _ _ s /\
+                   forall j, is_act (cores s') j <-> is_act (cores s) j).
+Proof.
+  intros s to s' ok Q H. destruct (quiet_setState _ _ _ _ Q H) as (Q' & S & R & Ht & Hf).
+  split; [exact Q'|]. split; [apply applied_exactly; exact Q'|]. split; [exact Ht|].
+  intros Hok. destruct (Hf Hok) as [T N]. split; [exact T|]. split; [exact N|].
+  intros j. rewrite (applied_exactly _ Q'), (applied_exactly _ Q). unfold chain.
+  rewrite T, R, !(hgt_static _ _ _ S), (anc_list_static _ _ _ _ S). reflexivity.
+Qed.
